@@ -44,7 +44,7 @@ var _ plugintypes.Operator = (*pm)(nil)
 func newPM(options plugintypes.OperatorOptions) (plugintypes.Operator, error) {
 	data := options.Arguments
 
-	data = strings.ToLower(data)
+	data = lowerASCII(data)
 	dict := strings.Split(data, " ")
 	builder := ahocorasick.NewAhoCorasickBuilder(ahocorasick.Opts{
 		AsciiCaseInsensitive: true,
@@ -63,6 +63,19 @@ func (o *pm) Evaluate(tx plugintypes.TransactionState, value string) bool {
 		return false
 	}
 	return pmEvaluate(o.matcher, tx, value)
+}
+
+// lowerASCII lower-cases the ASCII letters of s and nothing else. The matcher folds ASCII case
+// only, so a phrase must keep its other bytes as written: strings.ToLower would turn "É" into
+// "é", which the input "É" then no longer contains.
+func lowerASCII(s string) string {
+	b := []byte(s)
+	for i, c := range b {
+		if c >= 'A' && c <= 'Z' {
+			b[i] = c + ('a' - 'A')
+		}
+	}
+	return string(b)
 }
 
 // minPatternLen returns the length of the shortest pattern.
